@@ -157,4 +157,70 @@ func (*Writer).SyncAndClose
     ensures[sync_clean] err == nil ==> !fsDirty[w.Path]
     ensures[sync_frame] forall p string :: p != w.Path ==> fsDirty[p] == old(fsDirty[p])
 
+
+// ================================================================ the documented record layout (C13, C14, C07)
+// Written down once, independently of the code; writers and readers are each proved against it.
+//   V2 record at p:  crc32c[4] offset[8] unixmicro[8] keylen[4] valuelen[4] key value trailer[8]
+//                    crc covers everything after the crc field (header rest, key, value, trailer)
+//   V1 record at p:  offset[8] unixmicro[8] keylen[4] valuelen[4] crc32c[4] key value  (crc covers key+value)
+//   all integers big-endian; trailer = DE AD BE EF FE ED FA CE
+
+pred be32(b map[int]int, p int) := b[p]*16777216 + b[p+1]*65536 + b[p+2]*256 + b[p+3]
+pred be64(b map[int]int, p int) :=
+    b[p]*72057594037927936 + b[p+1]*281474976710656 + b[p+2]*1099511627776 + b[p+3]*4294967296
+    + b[p+4]*16777216 + b[p+5]*65536 + b[p+6]*256 + b[p+7]
+
+pred isBytes(b map[int]int) := forall i :: 0 <= b[i] && b[i] <= 255
+
+// the 8 trailer bytes DE AD BE EF FE ED FA CE at q
+pred trailerAt(b map[int]int, q int) :=
+    b[q] == 222 && b[q+1] == 173 && b[q+2] == 190 && b[q+3] == 239 && b[q+4] == 254 && b[q+5] == 237 && b[q+6] == 250 && b[q+7] == 206
+
+pred ksV2(b map[int]int, p int) := be32(b, p+20)
+pred vsV2(b map[int]int, p int) := be32(b, p+24)
+
+// a complete valid V2 record starts at p in a file of length n
+pred validV2(b map[int]int, n int, p int) :=
+    p >= 0 && p + 28 <= n
+    && ksV2(b, p) < 2147483648 && vsV2(b, p) < 2147483648 && ksV2(b, p) + vsV2(b, p) <= 67108864
+    && p + 36 + ksV2(b, p) + vsV2(b, p) <= n
+    && be32(b, p) == crcOf(range(b, p+4, 32 + ksV2(b, p) + vsV2(b, p)))
+    && trailerAt(b, p + 28 + ksV2(b, p) + vsV2(b, p))
+
+// package-level data established by init (proved in the unit message.init)
+axiom trailerData := len(trailerMagicData) == 8
+    && abs(trailerMagicData, base(trailerMagicData)) == 222 && abs(trailerMagicData, base(trailerMagicData)+1) == 173
+    && abs(trailerMagicData, base(trailerMagicData)+2) == 190 && abs(trailerMagicData, base(trailerMagicData)+3) == 239
+    && abs(trailerMagicData, base(trailerMagicData)+4) == 254 && abs(trailerMagicData, base(trailerMagicData)+5) == 237
+    && abs(trailerMagicData, base(trailerMagicData)+6) == 250 && abs(trailerMagicData, base(trailerMagicData)+7) == 206
+
+// the bytes a reader sees
+pred rdB(r *Reader) := ite(r.ra != nil, mData[r.ra], fData[r.r])
+pred rdL(r *Reader) := ite(r.ra != nil, mSize[r.ra], fSize[r.r])
+
+func (*Reader).readV2
+    requires position >= 0 && isBytes(rdB(r)) && rdL(r) >= 0 && (r.ra != nil || r.r != nil)
+    requires[zeroed] msg.Key == nil && msg.Value == nil
+    split[mmap] r.ra != nil
+    split[file] r.ra == nil
+    assigns *msg
+    // success exactly on a valid record (no assumption about the file bytes: C14 behaviour "damaged")
+    ensures[valid_ok]  validV2(rdB(r), rdL(r), position) ==> err == nil
+    ensures[ok_valid]  err == nil ==> validV2(rdB(r), rdL(r), position)
+    // every returned field is decoded from the bytes under the CRC
+    ensures[next]      err == nil ==> nextPosition == position + 36 + ksV2(rdB(r), position) + vsV2(rdB(r), position)
+    ensures[offset]    err == nil ==> msg.Offset == s64(be64(rdB(r), position + 4))
+    ensures[time]      err == nil ==> micro(msg.Time) == s64(be64(rdB(r), position + 12))
+    ensures[key]       err == nil ==> len(msg.Key) == ksV2(rdB(r), position)
+                           && (forall j :: base(msg.Key) <= j && j < base(msg.Key) + len(msg.Key) ==> abs(msg.Key, j) == rdB(r)[position + 28 + j - base(msg.Key)])
+    ensures[value]     err == nil ==> len(msg.Value) == vsV2(rdB(r), position)
+                           && (forall j :: base(msg.Value) <= j && j < base(msg.Value) + len(msg.Value) ==>
+                                   abs(msg.Value, j) == rdB(r)[position + 28 + ksV2(rdB(r), position) + j - base(msg.Value)])
+    ensures[nilkey]    err == nil && ksV2(rdB(r), position) == 0 ==> msg.Key == nil
+    ensures[nilvalue]  err == nil && vsV2(rdB(r), position) == 0 ==> msg.Value == nil
+    // classification of failures (C07): end of data exactly at the end of the file, corruption elsewhere
+    ensures[eof]       position == rdL(r) ==> is(err, io.EOF)
+    ensures[corrupt]   position < rdL(r) && err != nil ==> is(err, ErrCorrupted) && !is(err, io.EOF)
+    ensures[failed]    err != nil ==> nextPosition == -1
+
 @*/
